@@ -523,6 +523,8 @@ impl Subscription {
             .read_partition(partition_id, *from_sequence, IterDirection::Forward)
             .await?;
         'iter: while let Some(commits) = iter.next_batch(DEFAULT_BATCH_SIZE).await? {
+            #[cfg(feature = "verif-hooks")]
+            crate::verif::gate("subscription:partition-history:batch").await;
             for commit in commits {
                 let Some(first_partition_sequence) = commit.first_partition_sequence() else {
                     continue;
@@ -598,6 +600,8 @@ impl Subscription {
                             partition_iters.remove(&partition_id);
                             continue;
                         };
+                        #[cfg(feature = "verif-hooks")]
+                        crate::verif::gate("subscription:partitions-history:batch").await;
 
                         for commit in commits {
                             let Some(first_partition_sequence) = commit.first_partition_sequence()
@@ -684,6 +688,8 @@ impl Subscription {
             )
             .await?;
         while let Some(commits) = iter.next_batch(DEFAULT_BATCH_SIZE).await? {
+            #[cfg(feature = "verif-hooks")]
+            crate::verif::gate("subscription:stream-history:batch").await;
             for commit in commits {
                 let Some(first_partition_sequence) = commit.first_partition_sequence() else {
                     continue;
